@@ -512,10 +512,11 @@ impl Campaign for C17 {
         cfg.w_nested = 10;
         cfg.w_access = 6;
         // names with an underscore at either edge are legal identifiers: the symbol the host is asked for must be
-        // the hash of the whole name, in every position an identifier can take
-        cfg.idents = vec!["t1".into(), "t2".into(), "t3".into(), "f1".into(), "f2".into(), "x1".into(), "x2".into(), "_u1".into(), "u2_".into(), "_u3_".into()];
+        // the hash of the whole name, in every position an identifier can take; a colon at the end of a name
+        // (`u4:`) is dropped before hashing, as one in front of it is
+        cfg.idents = vec!["t1".into(), "t2".into(), "t3".into(), "f1".into(), "f2".into(), "x1".into(), "x2".into(), "_u1".into(), "u2_".into(), "_u3_".into(), "u4:".into()];
         // the input shape decides whether `$.key` may be generated at the top level
-        let input = input_for(rng, &["t1", "t2", "t3", "f1", "x1", "ka", "kb"]);
+        let input = input_for(rng, &["t1", "t2", "t3", "f1", "x1", "ka", "kb", "u4"]);
         let keyed = matches!(input, Val::Unit | Val::Pair(..) | Val::List(_));
         let mut g = Gen::new(rng, cfg);
         g.set_input_keyed(keyed);
